@@ -55,6 +55,8 @@ def run(ctx):
             if sa == "ok" and lib_items(rl) is None:
                 sa = "timeout"
         per_kind[kind] = per_kind.get(kind, 0) + 1
+        if sa == "timeout":
+            continue          # termination is C06's property
         if sa != "ok":
             failing.append(dict(program="\n".join(L), injected=kind, why="linting ends with %s" % sa))
             continue
